@@ -171,6 +171,12 @@ def boundary_inputs():
         out.append(("block-depth-%d" % d, "if true {" * min(d, 450) + "}" * min(d, 450) + "\n"))
     out += [("unclosed-block-comment-then-list-depth-1990", "### x\nconst x = " + "[" * 1990 + "1" + "]" * 1990 + "\n"),
             ("unclosed-block-comment-then-unclosed-lists", "### x\nconst x = " + "[" * 4000 + "\n")]
+    # operators whose RESULT is as large as an operand says: whatever the compiler computes ahead of time must stay small and quick
+    for cnt in ("2147483647", "2147483648", "300000000", "1000000000000", "9223372036854775807", "B9223372036854775807", "B170141183460469231731687303715884105727", "-1", "0"):
+        for k, form in enumerate(("x = \"ab\" * %s\n", "x = %s * \"ab\"\n", "f = fn() -> str {\n\treturn \"ab\" * %s\n}\n", "x = (\"a\" + \"b\") * %s\n", "x = \"ab\" * %s * 2\n",
+                                  "x = 2.pow(%s)\n", "x = B2.pow(%s)\n", "x = 1 << %s\n", "x = B1 << %s\n", "x = 2.5.powf(%s)\n", "const c = \"ab\" * %s\nprint c.len()\n",
+                                  "x = [\"ab\" * %s]\n", "x = (\"ab\" * %s).len()\n")):
+            out.append(("huge-result-%d-%s" % (k, cnt), form % cnt))
     out += [("huge-int", "x = " + "9" * 400 + "\n"), ("huge-float", "x = " + "9" * 400 + "." + "9" * 400 + "\n"), ("huge-byte", "x = 0b" + "1" * 300 + "\n"),
             ("huge-bigint", "x = B" + "9" * 300 + "\n"), ("hex-overflow", "x = 0x" + "F" * 64 + "\n"), ("unterminated-string", "x = \"abc\n"),
             ("unterminated-block-comment", "### never closed\nx = 1\n"), ("lonely-backslash", "x = \"a\\\"\n"), ("bad-escape", "x = \"a\\qb\"\n"),
